@@ -12,6 +12,8 @@ ASSUMPTIONS = ["crop extension, wipe and drop are outside C06 and not modelled; 
 
 def classify(op, R):
     p = op.split(" ")
+    if p[0] == "xformn":
+        return "xformn:n%s:first%s:%s" % (p[6], p[7], "err" if R.startswith("err") else "ok")
     return "xform:op%s:ss%s:opts%s:%s" % (p[1], p[2], p[5], "err" if R.startswith("err") else "ok")
 
 
@@ -46,6 +48,17 @@ def gen_ops(rng, tier):
             if cx + cw > fw: cw = max(fw - cx, 0)
             if cy + ch > fh: ch = max(fh - cy, 0)
         ops.append("xform %d %d %d %d %d %d %d %d %d %d %d" % (op, ss, w, h, opts, cx, cy, cw, ch, rng.randrange(1 << 20), int(rng.random() < .2)))
+    # several transforms in one call (they share the source coefficient arrays): each output must equal the transform requested alone
+    for i in range(300 if big else 50):
+        ss = rng.choice([0, 1, 2, 3, 4, 2])
+        hs, vs = {0: (1, 1), 1: (2, 1), 2: (2, 2), 3: (1, 1), 4: (1, 2)}[ss]
+        w = rng.choice([1, 2, 3]) * hs * 8 if rng.random() < .6 else rng.randint(1, 3 * hs * 8 + 5)
+        h = rng.choice([1, 2, 3]) * vs * 8 if rng.random() < .6 else rng.randint(1, 3 * vs * 8 + 5)
+        n = rng.randint(2, 4)
+        trs = []
+        for _ in range(n):
+            trs += [rng.randrange(8), rng.choice([0, 0, 2, 2, 1, 32, 256])]
+        ops.append("xformn %d %d %d %d %d %d %s" % (ss, w, h, rng.randrange(1 << 20), int(rng.random() < .2), n, " ".join(map(str, trs))))
     # trim + crop with a non-zero offset reaching into the partial iMCU at the mirrored edge
     for op in range(1, 8):
         for ss in (0, 2, 1):
@@ -64,7 +77,7 @@ def search(ctx, failing_ops):
     rng = random.Random("search/%s" % ctx["seed"])
     # re-examine with the real-library oracle (inverse law): whole-iMCU variants of the failing requests
     ops = list(failing_ops)
-    for o in failing_ops[:10]:
+    for o in [x for x in failing_ops if x.startswith("xform ")][:10]:
         p = o.split(" ")
         ss = int(p[2]); hs, vs = {0: (1, 1), 1: (2, 1), 2: (2, 2), 3: (1, 1), 4: (1, 2), 5: (4, 1), 6: (1, 4)}.get(ss, (ss // 10, ss % 10))
         for k in (1, 2, 3):
